@@ -17,6 +17,7 @@ import (
 
 	"context"
 
+	"github.com/btcsuite/btcd/btcec/v2"
 	"github.com/btcsuite/btclog/v2"
 	"github.com/lightninglabs/lightning-node-connect/gbn"
 	"github.com/lightninglabs/lightning-node-connect/hashmailrpc"
@@ -25,6 +26,7 @@ import (
 
 var _ context.Context
 var _ btclog.Logger
+var _ *btcec.PublicKey
 var _ hashmailrpc.HashMailClient
 
 var _ = aezeed.BitsPerWord
@@ -95,6 +97,9 @@ func offsetin(sub, whole []byte) int { return 0 }
 func elems[T any](s []T) int               { return len(s) }
 func chanstate(ch any) int                 { return 0 }
 
+// same(a, b): the two values are identical component by component (also for types Go cannot compare)
+func same(a, b any) bool { return true }
+
 // bufbytes(&buf): the unread bytes of a bytes.Buffer; disjoint(a, b): no overlap
 func bufbytes(b any) []byte       { return nil }
 func disjoint(a, b []byte) bool   { return true }
@@ -141,6 +146,13 @@ func hkdf32(secret, salt [32]byte, j int) (r [32]byte) { return }
 func hkdf0(salt [32]byte, j int) (r [32]byte)          { return }
 func sealpt2is(i int, b0, b1 uint8) bool               { return true }
 
+//   sha256cat(d,data): SHA-256 of the 32 bytes d followed by data
+//   hkdfx(ck,input,j): bytes [32j, 32j+32) of the HKDF-SHA256 stream for (secret input, salt ck, no info)
+func sealad32is(i int, d [32]byte) bool                { return true }
+func openad32is(i int, d [32]byte) bool                { return true }
+func sha256cat(d [32]byte, data []byte) (r [32]byte)    { return }
+func hkdfx(ck [32]byte, input []byte, j int) (r [32]byte) { return }
+
 // ---- spec functions --------------------------------------------------------
 
 func seqeq(a, b []byte) bool {
@@ -171,6 +183,7 @@ func be32at1(b []byte) uint32 {
 //@ import "github.com/lightningnetwork/lnd/aezeed"
 //@ import "context"
 //@ import "github.com/btcsuite/btclog/v2"
+//@ import "github.com/btcsuite/btcd/btcec/v2"
 //@ import "github.com/lightninglabs/lightning-node-connect/hashmailrpc"
 
 // ---- pairing phrase and rendezvous (C17) -------------------------------------------
@@ -281,6 +294,7 @@ func csnext(c *cipherState, nonce0 uint64, key0, salt0 [32]byte) bool {
 //@   ensures nseals() == old(nseals())+1 && sealkeyis(nseals()-1, old(c.secretKey)) && sealnonceis(nseals()-1, old(c.nonce)) &&
 //@           sealptis(nseals()-1, plainText) && sealadis(nseals()-1, associatedData)
 //@   ensures implies(len(cipherText) == 0, sealoutis(nseals()-1, out))
+//@   ensures implies(isnil(cipherText), fresh(out))
 //@   ensures nopens() == old(nopens())
 
 //@ func (c *cipherState) Decrypt(associatedData, plainText, cipherText []byte) (out []byte, err error)
@@ -501,6 +515,90 @@ func implOK(impl controlConn) bool {
 //@   noframe
 //@   ensures @C15 implies(err == nil, n == len(b))
 //@   ensures @C15 implies(err != nil, n == 0)
+
+// ---- Noise handshake (C03, C04, C07, C16) --------------------------------------------
+
+//@ extern btcec.ParsePubKey nonnil
+//@ extern btcec.PrivateKey nonnil
+//@ extern PrivateKey).PubKey nonnil
+//@ extern SingleKeyECDH.PubKey nonnil
+//@ extern btcec.NewPublicKey nonnil
+
+//@ func ekeMask(e *btcec.PublicKey, passphraseEntropy []byte) (r *btcec.PublicKey)
+//@   props C03 C07
+//@   trusted
+//@   ensures r != nil
+
+//@ func ekeUnmask(me *btcec.PublicKey, passphraseEntropy []byte) (r *btcec.PublicKey)
+//@   props C03 C07
+//@   trusted
+//@   ensures r != nil
+
+// ---- symmetric state of the handshake (C03, C04) --------------------------------
+// The transcript hash h and the key chain ck/k: every ciphertext and every
+// public key is absorbed by mixHash; every handshake AEAD operation uses the
+// running hash as associated data.
+
+//@ func (s *symmetricState) mixHash(data []byte)
+//@   props C03 C04 C07
+//@   modifies cryptolog()
+//@   requires s != nil
+//@   modifies s.handshakeDigest
+//@   ensures @C04 s.handshakeDigest == sha256cat(old(s.handshakeDigest), data)
+//@   ensures nseals() == old(nseals()) && nopens() == old(nopens())
+
+//@ func (s *symmetricState) mixKey(input []byte)
+//@   props C03 C04 C07
+//@   modifies cryptolog()
+//@   requires s != nil
+//@   modifies s.chainingKey, s.tempKey, s.cipherState.nonce, s.cipherState.secretKey, s.cipherState.cipher
+//@   ensures @C04 s.chainingKey == hkdfx(old(s.chainingKey), input, 0) && s.tempKey == hkdfx(old(s.chainingKey), input, 1)
+//@   ensures csinv(&s.cipherState) && s.cipherState.nonce == 0 && s.cipherState.secretKey == s.tempKey
+//@   ensures nseals() == old(nseals()) && nopens() == old(nopens())
+
+//@ func (s *symmetricState) EncryptAndHash(plaintext []byte) (ct []byte)
+//@   props C03 C04 C07
+//@   modifies cryptolog()
+//@   requires s != nil && csinv(&s.cipherState)
+//@   modifies s.handshakeDigest, s.cipherState.nonce, s.cipherState.secretKey, s.cipherState.salt, s.cipherState.cipher
+//@   ensures csinv(&s.cipherState) && csnext(&s.cipherState, old(s.cipherState.nonce), old(s.cipherState.secretKey), old(s.cipherState.salt))
+//@   ensures nopens() == old(nopens()) && nseals() == old(nseals())+1 && len(ct) == len(plaintext)+macSize && fresh(ct)
+//@   ensures @C04 sealkeyis(nseals()-1, old(s.cipherState.secretKey)) && sealnonceis(nseals()-1, old(s.cipherState.nonce)) &&
+//@           sealptis(nseals()-1, plaintext) && sealad32is(nseals()-1, old(s.handshakeDigest)) && sealoutis(nseals()-1, ct)
+//@   ensures @C04 s.handshakeDigest == sha256cat(old(s.handshakeDigest), ct)
+
+//@ func (s *symmetricState) DecryptAndHash(ciphertext []byte) (pt []byte, err error)
+//@   props C03 C04 C07
+//@   modifies cryptolog()
+//@   requires s != nil && csinv(&s.cipherState)
+//@   modifies s.handshakeDigest, s.cipherState.nonce, s.cipherState.secretKey, s.cipherState.salt, s.cipherState.cipher
+//@   ensures csinv(&s.cipherState) && csnext(&s.cipherState, old(s.cipherState.nonce), old(s.cipherState.secretKey), old(s.cipherState.salt))
+//@   ensures nseals() == old(nseals()) && nopens() == old(nopens())+1
+//@   ensures @C03 (err == nil) == openok(nopens()-1)
+//@   ensures @C04 openkeyis(nopens()-1, old(s.cipherState.secretKey)) && opennonceis(nopens()-1, old(s.cipherState.nonce)) &&
+//@           openctis(nopens()-1, ciphertext) && openad32is(nopens()-1, old(s.handshakeDigest))
+//@   ensures @C04 implies(err == nil, s.handshakeDigest == sha256cat(old(s.handshakeDigest), ciphertext))
+//@   ensures @C03 implies(err != nil, s.handshakeDigest == old(s.handshakeDigest) && isnil(pt))
+//@   ensures implies(err == nil, len(ciphertext) >= macSize && len(pt) == len(ciphertext)-macSize && (fresh(pt) || isnil(pt)))
+
+// hsready: a Machine as NewBrontideMachine returns it, before the handshake.
+func hsready(b *Machine) bool {
+	return b != nil && b.cfg != nil && !isnil(b.cfg.ConnData) && !isnil(b.localStatic) && !isnil(b.ephemeralGen) &&
+		csinv(&b.cipherState) && b.minVersion <= b.maxVersion && b.maxVersion <= MaxHandshakeVersion &&
+		is[*ConnData](b.cfg.ConnData) && as[*ConnData](b.cfg.ConnData) != nil
+}
+
+// verifXXResponder / verifXXInitiator / verifKKResponder / verifKKInitiator: the
+// handshake with the concrete patterns (the pattern tables are package-level
+// variables: their values come from the package initialisers).
+func verifXXResponder(b *Machine, rw io.ReadWriter) (err error) { return b.DoHandshake(rw) }
+
+//@ func verifXXResponder(b *Machine, rw io.ReadWriter) (err error)
+//@   props C03 C07 C16
+//@   withinit
+//@   noframe
+//@   requires hsready(b) && !isnil(rw) && !b.initiator && same(b.pattern, XXPattern) && b.version == b.maxVersion
+//@   ensures @C03 implies(wirelen() > old(wirelen()), nopens() >= old(nopens())+1 && openok(old(nopens())))
 
 // ---- record framing (C16) -----------------------------------------------------
 
